@@ -62,6 +62,10 @@ impl<P: SingleObjectiveProblem> Selection<P> for DeterministicFitnessProportiona
         population: &'a [Individual<P>],
         _rng: &mut Random,
     ) -> ExecResult<Vec<&'a Individual<P>>> {
+        ensure!(
+            self.min_selected <= self.max_selected,
+            "the minimum number of selected offspring must not exceed the maximum"
+        );
         let (worst, best) = f::objective_bounds(population).wrap_err("population is empty")?;
         ensure!(
             worst.is_finite(),
